@@ -12,7 +12,7 @@ Minimality of the chosen size when an ordering step is present is NOT decided (l
 """
 import ast
 
-from ..normalize import inline, local_env, expand, canon, ctext, conjuncts, branch_values, merge_outcomes, Unknown, builders, comp_builder, _enclosing, eval_test, value_under
+from ..normalize import inline, local_env, expand, canon, ctext, conjuncts, branch_values, merge_outcomes, Unknown, builders, comp_builder, _enclosing, eval_test, value_under, bool_implies, bool_literals
 from ..cfg import CFG
 from .. import flow
 from ..core import kwarg
@@ -319,8 +319,12 @@ def run(prog, rep):
     if gc is None:
         raise AnalysisError('generate_component vanished')
     gq = 'ComponentCatalog.generate_component'
-    # the interface loop
-    loops = [n for n in walk_no_nested(gc) if isinstance(n, ast.For) and 'interfaces_dict' in ast.unparse(n.iter)]
+    # private helpers split off generate_component are read as part of it
+    gc = inline(prog, ccat, gc, exclude=('__read_catalog',))
+    # the interface loop: the loop over the 'Interfaces' of the matched catalogue row
+    gc_env_ = local_env(gc)
+    loops = [n for n in walk_no_nested(gc) if isinstance(n, ast.For) and
+             any(isinstance(x, ast.Subscript) and isinstance(x.slice, ast.Constant) and x.slice.value == 'Interfaces' for x in ast.walk(expand(n.iter, gc_env_)))]
     if len(loops) != 1:
         raise AnalysisError(f'{gq}: interface loop not found')
     loop = loops[0]
@@ -440,18 +444,38 @@ def run(prog, rep):
     if not bw_ok or not unit_ok:
         rep.violation('R3', loc(cmod, loop), gq, 'interface capacities not taken from the row / unit count',
                       'the port speed must be int(<catalogued speed of that port>) and the unit count the number of devices')
-    # row copying: the row is the catalogue entry selected by the lookup loop; the sliver is the fresh ComponentSliver
-    cat_loops = []
+    # row copying: the row is the catalogue entry selected by the lookup (a search loop, or next() over a generator); the
+    # sliver is the fresh ComponentSliver
+    genv2 = local_env(gc)
+    selections = []         # (row variable, entry variable, selection condition)
     for l in [n for n in walk_no_nested(gc) if isinstance(n, ast.For) and isinstance(n.target, ast.Name)]:
-        src_ = expand(l.iter, local_env(gc))
-        if isinstance(src_, ast.Call) and call_name(src_).endswith('read_catalog'):
-            cat_loops.append(l)
-    if len(cat_loops) != 1:
-        raise AnalysisError(f'{gq}: catalogue lookup loop not found')
-    cl = cat_loops[0]
-    entry = cl.target.id
-    row_names = {t.id for a in ast.walk(cl) if isinstance(a, ast.Assign) and isinstance(a.value, ast.Name) and a.value.id == entry
-                 for t in a.targets if isinstance(t, ast.Name)}
+        src_ = expand(l.iter, genv2)
+        if not (isinstance(src_, ast.Call) and call_name(src_).endswith('read_catalog')):
+            continue
+        entry = l.target.id
+        lenv2 = {k_: v_ for k_, v_ in genv2.items()}
+        for a in ast.walk(l):
+            if isinstance(a, ast.Assign) and isinstance(a.value, ast.Name) and a.value.id == entry and len(a.targets) == 1 and isinstance(a.targets[0], ast.Name):
+                _, cs_ = _enclosing(a, l)
+                cond = None
+                for c_ in cs_:
+                    c2 = expand(c_, lenv2)
+                    cond = c2 if cond is None else ast.BoolOp(op=ast.And(), values=[cond, c2])
+                if cond is not None:
+                    selections.append((a.targets[0].id, entry, cond))
+    for a in walk_no_nested(gc):
+        if isinstance(a, ast.Assign) and len(a.targets) == 1 and isinstance(a.targets[0], ast.Name) and isinstance(a.value, ast.Call) and \
+                isinstance(a.value.func, ast.Name) and a.value.func.id == 'next' and a.value.args and isinstance(a.value.args[0], ast.GeneratorExp):
+            g = a.value.args[0]
+            if len(g.generators) == 1 and isinstance(g.generators[0].target, ast.Name) and isinstance(g.elt, ast.Name) and \
+                    g.elt.id == g.generators[0].target.id:
+                src_ = expand(g.generators[0].iter, genv2)
+                if isinstance(src_, ast.Call) and call_name(src_).endswith('read_catalog') and g.generators[0].ifs:
+                    cond = g.generators[0].ifs[0] if len(g.generators[0].ifs) == 1 else ast.BoolOp(op=ast.And(), values=list(g.generators[0].ifs))
+                    selections.append((a.targets[0].id, g.elt.id, cond))
+    if not selections:
+        raise AnalysisError(f'{gq}: catalogue lookup not found')
+    row_names = {r for r, _, _ in selections}
     sl_names = {t.id for a in walk_no_nested(gc) if isinstance(a, ast.Assign) and isinstance(a.value, ast.Call) and isinstance(a.value.func, ast.Name) and
                 a.value.func.id == 'ComponentSliver' for t in a.targets if isinstance(t, ast.Name)}
     if len(row_names) != 1 or len(sl_names) != 1:
@@ -467,17 +491,37 @@ def run(prog, rep):
         if not fed:
             rep.violation('R3', loc(cmod, gc), gq, f"<sliver>.{setter} not fed from <matched row>['{key_}']",
                           f'the generated component must take its {setter[4:]} from the matched catalogue row')
-    # lookup matches model AND type
-    match_ifs = [n for n in ast.walk(cl) if isinstance(n, ast.If) and
-                 any(isinstance(a, ast.Assign) and any(isinstance(t, ast.Name) and t.id == rowv for t in a.targets) for a in n.body)]
-    rep.instance('R3', f'{gq}: lookup tests {[norm(n.test) for n in match_ifs]}')
-    for n in match_ifs:
-        has_type = any(isinstance(x, ast.Subscript) and isinstance(x.value, ast.Name) and x.value.id == entry and isinstance(x.slice, ast.Constant) and
-                       x.slice.value == 'Type' for x in ast.walk(n.test))
-        has_model = any(isinstance(x, ast.Name) and x.id == 'model' for x in ast.walk(n.test))
-        if not has_type or not has_model:
-            rep.violation('R3', loc(cmod, n), gq, 'lookup test without model or type', f'catalogue lookup must match both the model and the type (found `{norm(n.test, 100)}`)')
-    if len(match_ifs) < 2:
+    # the lookup matches model AND type: whenever an entry is selected its Type equals the requested type, and the requested
+    # model is its Model or one of its AlsoModels
+    def _entry_field(x, entry, key_):
+        if isinstance(x, ast.Subscript) and isinstance(x.value, ast.Name) and x.value.id == entry and isinstance(x.slice, ast.Constant) and x.slice.value == key_:
+            return True
+        return isinstance(x, ast.Call) and call_name(x) == 'get' and isinstance(x.func.value, ast.Name) and x.func.value.id == entry and x.args and \
+            isinstance(x.args[0], ast.Constant) and x.args[0].value == key_
+    main_seen = also_seen = False
+    rep.instance('R3', f'{gq}: lookup selects an entry when {[norm(c_, 110) for _, _, c_ in selections]}')
+    for _, entry, cond in selections:
+        def is_type(n_, entry=entry):
+            return isinstance(n_, ast.Compare) and isinstance(n_.ops[0], ast.Eq) and any(_entry_field(x, entry, 'Type') for x in ast.walk(n_))
+
+        def is_main(n_, entry=entry):
+            return isinstance(n_, ast.Compare) and isinstance(n_.ops[0], ast.Eq) and any(_entry_field(x, entry, 'Model') for x in ast.walk(n_)) and \
+                any(isinstance(x, ast.Name) and x.id == 'model' for x in ast.walk(n_))
+
+        def is_also(n_, entry=entry):
+            return isinstance(n_, ast.Compare) and isinstance(n_.ops[0], ast.In) and isinstance(n_.left, ast.Name) and n_.left.id == 'model' and \
+                any(_entry_field(x, entry, 'AlsoModels') for x in ast.walk(n_.comparators[0]))
+        try:
+            t_ok = bool_implies(cond, is_type)
+            m_ok = bool_implies(cond, lambda n_: is_main(n_) or is_also(n_))
+        except Unknown:
+            t_ok = m_ok = False
+        ats = bool_literals(cond)
+        main_seen = main_seen or any(is_main(a_) for a_ in ats)
+        also_seen = also_seen or any(is_also(a_) for a_ in ats)
+        if not t_ok or not m_ok:
+            rep.violation('R3', loc(cmod, cond), gq, 'lookup test without model or type', f'catalogue lookup must match both the model and the type (found `{norm(cond, 100)}`)')
+    if not main_seen or not also_seen:
         rep.violation('R3', loc(cmod, gc), gq, 'lookup does not test main model and AlsoModels',
                       'the catalogue lookup must test the main model and the AlsoModels list')
     # R4 code side: enum built from every entry
